@@ -264,3 +264,42 @@ def k4(prog):
     if not any(h["t"] == "..." for h in t["handlers"]):
         findings.append({"key": "K4:catch-all", "where": t["l"], "msg": "per-input try has no catch (...)", "detail": None})
     return inst, findings
+
+
+def k5(prog):
+    """the flags that accumulate over all inputs (`match`, `errors`) are only ever set inside the per-input loop"""
+    inst, findings = [], []
+    main = _main(prog)
+    body = main["body"]["body"] if main["body"].get("k") == "try" else main["body"]
+    st = body["s"]
+    n = 0
+    for i, s in enumerate(st):
+        if s.get("k") not in ("while", "for", "do") or not any(c.get("fn") == "zw_query_execute" for c in calls(s)):
+            continue
+        flags = {}
+        for prev in st[:i]:
+            if prev.get("k") == "decl":
+                for v in prev["vars"]:
+                    iv = unwrap(v.get("init"))
+                    if v.get("t") == "bool" and isinstance(iv, dict) and iv.get("k") == "bool" and iv["v"] is False:
+                        flags[v["id"]] = v
+        used_after = {y["id"] for later in st[i + 1:] for y in walk(later) if y.get("k") == "ref" and y.get("id") in flags}
+        for y in walk(s):
+            if y.get("k") == "asg" and isinstance(unwrap(y["lhs"]), dict) and unwrap(y["lhs"]).get("id") in used_after:
+                v = flags[unwrap(y["lhs"])["id"]]
+                n += 1
+                rhs = unwrap(y["rhs"])
+                mono = (y["op"] == "=" and isinstance(rhs, dict) and rhs.get("k") == "bool" and rhs["v"] is True) or y["op"] == "|=" or \
+                    (y["op"] == "=" and any(z.get("k") == "ref" and z.get("id") == v["id"] for z in walk(y["rhs"])))
+                key = "K5:main:%s@%s" % (v["n"], y.get("l"))
+                inst.append((key, {"assignment": short(y)[:50], "monotone": mono}))
+                if not mono:
+                    findings.append({"key": "K5:main:%s" % v["n"], "where": "dwgrep/dwgrep.cc:%s" % (y.get("l") or "?").split(":")[-1],
+                                     "msg": "`%s` decides the exit status over ALL inputs but is overwritten per input (`%s`): the status then reflects only the last file/argument combination" % (v["n"], short(y)[:60]),
+                                     "detail": None})
+        for fl in flags.values():
+            if fl["id"] in used_after:
+                inst.append(("K5:main:%s" % fl["n"], {"accumulates_over_inputs": True}))
+    if n < 1:
+        raise Broken("no accumulating status flag assigned inside the per-input loop of main() (anchor `match` vanished)")
+    return inst, findings
